@@ -2,7 +2,7 @@
 from . import defs as D
 from .core import uncp
 
-HEADER = "#![allow(warnings)]\nuse vsupport::*;\n"
+HEADER = "#![allow(warnings)]\n#![allow(arithmetic_overflow)]   // rustc flags `V as i8` on enums whose variants lie more than 127 positions apart\nuse vsupport::*;\n"
 
 
 def captured_fn(E):
